@@ -306,6 +306,7 @@ func init() {
 			"at both AccountManager.Create sites (350 NewUser, 349 UpdateUser create branch): every bit of the created account's bitmap is held by the creator, for all 2^64 x 2^64 bitmap pairs (64-iteration subset loop with inductive invariant)",
 			"HandleDisconnectUser: BanList.Add (both options) and the delayed Disconnect are reached only if the target lacks cannot-be-disconnected (bit 23)",
 		},
+		Undecided: []string{"editing an EXISTING account's privileges (HandleSetUser, the update branch of HandleUpdateUser) is outside the property's statement (it speaks of created accounts) and is not constrained", "that the delayed Disconnect goroutine targets the client looked up (closure body not under contract)"},
 	}
 	plans["C01"] = &Plan{
 		Items: fnItems(nil,
@@ -327,5 +328,6 @@ func init() {
 			"decoders: fields equal the corresponding sub-ranges of the input",
 			"Transaction.Read serialises without consuming: it writes only its own cursor and the caller's buffer (the fields and their cursors are untouched, so a transaction can be read again, measured, or sent to several clients); the 22-byte header carries flags, type, ID, error code, the size twice and the field count; every field is drained through Field.Read whose precondition (length prefix = data length) is checked at the drain site",
 		},
+		Undecided: []string{"the bytes of Transaction.Read after the 22-byte header equal the concatenation of the fields' wire forms, and the size fields equal its length (needs an iterated concatenation over the field slice; only the header, the frame and the per-field drain preconditions are proved)", "Account.Read / FileResumeData marshalling / EncodeFilePath content / GetNewsArtListData content are not under a functional contract", "the protocol document itself is the oracle for the layouts: a layout transcribed wrongly would be proved faithfully"},
 	}
 }
